@@ -831,6 +831,12 @@ static int parse_data(vnacal_load_state_t *vlsp, const vnacal_layout_t *vlp,
 		*item);
 	double frequency = -1.0;
 
+	if (child->type != YAML_MAPPING_NODE) {
+	    _vnacal_error(vcp, VNAERR_SYNTAX,
+		    "%s (line %ld) error: expected mapping in \"data\" entry",
+		    vcp->vc_filename, child->start_mark.line + 1);
+	    return -1;
+	}
 	(void)memset((void *)matrices, 0, sizeof(matrices));
 	for (pair = child->data.mapping.pairs.start;
 	     pair < child->data.mapping.pairs.top; ++pair) {
